@@ -9,6 +9,8 @@ import typing
 
 from pamqp import common
 
+_EPOCH = datetime.datetime(1970, 1, 1, tzinfo=datetime.timezone.utc)
+
 
 def by_type(value: bytes,
             data_type: str,
@@ -282,7 +284,10 @@ def timestamp(value: bytes) -> typing.Tuple[int, datetime.datetime]:
 
         # Anything above the year 2106 is likely milliseconds
         if ts_value > 0xFFFFFFFF:
-            ts_value /= 1000.0
+            try:
+                return 8, _EPOCH + datetime.timedelta(milliseconds=ts_value)
+            except OverflowError as error:
+                raise ValueError(str(error))
 
         return 8, datetime.datetime.fromtimestamp(ts_value,
                                                   tz=datetime.timezone.utc)
